@@ -16,6 +16,12 @@ import (
 	"time"
 
 	"github.com/kardiachain/go-kardia/blockchain"
+	"github.com/kardiachain/go-kardia/consensus"
+	"github.com/kardiachain/go-kardia/lib/p2p"
+	cmn "github.com/kardiachain/go-kardia/lib/common"
+	kproto "github.com/kardiachain/go-kardia/proto/kardiachain/types"
+	"github.com/kardiachain/go-kardia/trie"
+	"github.com/kardiachain/go-kardia/types"
 	"github.com/kardiachain/go-kardia/mainchain/tx_pool"
 	bcproto "github.com/kardiachain/go-kardia/proto/kardiachain/blockchain"
 	prototx "github.com/kardiachain/go-kardia/proto/kardiachain/txpool"
@@ -114,19 +120,44 @@ func Main() {
 	r := core.Start("C18", "exploration")
 	r.SetRule("evaluation = one message handed to Reactor.Receive of a reactor built as in production around a live node (4-validator simulated network; victim caught up at some consensus step, or fast-syncing), sent by a stub peer connected through the real switch; non-trivial = a mutated message (distinct reactor, type, mutation, peer-state prelude) that passed decoding and validation, i.e. reached the handler with live state instead of being rejected at the door")
 	only := os.Getenv("C18_ONLY")
+	tg := time.Now()
+	lap := func(g string) {
+		if !r.IsChild() && os.Getenv("C18_TIMING") != "" {
+			fmt.Fprintf(os.Stderr, "group %s: %.1fs\n", g, time.Since(tg).Seconds())
+		}
+		tg = time.Now()
+	}
 	if only == "" || only == "cons" {
 		consCorpus(r)
+		lap("consCorpus")
 		consRandom(r)
+		lap("consRandom")
 	}
 	if only == "" || only == "other" {
 		otherCorpus(r)
+		lap("otherCorpus")
 		otherRandom(r)
+		lap("otherRandom")
+	}
+	if only == "" || only == "byz" {
+		byzProposer(r)
+		lap("byzProposer")
+	}
+	if only == "" || only == "proc" {
+		syncProcessor(r)
+		lap("syncProcessor")
 	}
 	if only == "" || only == "race" {
 		fetchRace(r)
+		lap("fetchRace")
 	}
 	if only == "" || only == "mconn" {
 		mconnGroup(r)
+		lap("mconnGroup")
+	}
+	if only == "" || only == "roundtrip" {
+		roundtripGroup(r)
+		lap("roundtripGroup")
 	}
 	r.Floor("messages", 1000)
 	r.Floor("mutants_accepted", 100)
@@ -515,4 +546,270 @@ func (rn *Runner) FetchRace(r *rand.Rand) {
 		rn.broken = true
 		rn.c.Violation("mutex-held:txpool:PooledTransactionHashes:TxPool.mu", "TxPool.mu still held", rn.witness("fetch-race", sess, len(sess)-1, nil))
 	}
+}
+
+// ---------------------------------------------------------------- Byzantine proposer
+
+// byzProposer: the attacker holds the key of the validator whose turn it is to propose.
+// It sends a correctly signed proposal for arbitrary block content (fabricated blocks
+// with invalid headers, structurally mutated genuine blocks, byte garbage) and all its
+// parts; the node assembles, decodes, validates and prevotes.
+func byzProposer(r *core.Run) {
+	r.Cases("byz-proposer", r.N(24, 400), childOpts, func(c *core.Case) {
+		rg := c.R
+		spec := envSpec{Mode: "caughtup", Height: uint64(rg.Intn(3))}
+		rn := open(c, spec)
+		if rn == nil {
+			return
+		}
+		defer func() { rn.e.Close() }()
+		done := 0
+		for h := spec.Height + 1; h < spec.Height+14 && done < 5 && !rn.broken; h++ {
+			l := snapshot(rn.e)
+			if l.AdvProposer && rn.e.V.CS.GetRoundState().Proposal == nil {
+				rn.describe()
+				if rn.ByzSession(l, rg, c.I*7+done) {
+					done++
+				}
+			}
+			if rn.broken || rn.e.V.Dead {
+				break
+			}
+			res := rn.e.Net.RunSync(h, 60, nil)
+			if rn.e.V.Dead {
+				rn.advance(rg, 0)
+				break
+			}
+			if !res.Reached {
+				break
+			}
+		}
+		rn.run.Count("byz_proposer_sessions", done)
+	})
+}
+
+func (rn *Runner) ByzSession(l *live, r *rand.Rand, variant int) bool {
+	e := rn.e
+	var data []byte
+	var hash cmn.Hash
+	what := ""
+	genuine := makeBlock(e, 0)
+	if genuine == nil {
+		return false
+	}
+	switch variant % 4 {
+	case 0: // fabricated block with one invalid aspect (or a valid one)
+		v := (variant / 4) % 11
+		if b2 := makeBlock(e, v); b2 != nil {
+			pb, err := b2.ToProto()
+			if err != nil {
+				return false
+			}
+			data, hash, what = marshal(pb), b2.Hash(), fmt.Sprintf("fabricated block, variant %d", v)
+		}
+	case 1, 2: // structural mutation of a valid block
+		pb, err := genuine.ToProto()
+		if err != nil {
+			return false
+		}
+		what = "valid block with " + ApplyMutation(pb, r.Intn(CountMutations(pb)), r)
+		data, hash = marshal(pb), genuine.Hash()
+	case 3: // bytes
+		pb, _ := genuine.ToProto()
+		b := marshal(pb)
+		var label string
+		data, label = MutateBytes(b, r)
+		what, hash = "valid block bytes with "+label, genuine.Hash()
+	}
+	if len(data) == 0 {
+		return false
+	}
+	ps := types.NewPartSetFromData(data, types.BlockPartSizeBytes)
+	bid := types.BlockID{Hash: hash, PartsHeader: ps.Header()}
+	prop := e.Adv.SignProposal(e.AdvIdx, l.H, l.R, 0, bid)
+	var sess []Msg
+	if m, ok := l.validMsg("NewRoundStep", l.H, l.R); ok {
+		sess = append(sess, m)
+	}
+	pb := toPB(&consensus.ProposalMessage{Proposal: prop})
+	if pb == nil {
+		return false
+	}
+	sess = append(sess, Msg{Ch: consensus.DataChannel, Kind: "Proposal", Mut: "signed by the round's proposer (attacker-held key) for: " + what, Level: "go", Bytes: marshal(pb), Subject: true})
+	for i := 0; i < int(ps.Total()); i++ {
+		ppb := toPB(&consensus.BlockPartMessage{Height: l.H, Round: l.R, Part: ps.GetPart(i)})
+		if ppb == nil {
+			return false
+		}
+		sess = append(sess, Msg{Ch: consensus.DataChannel, Kind: "BlockPart", Mut: fmt.Sprintf("part %d/%d of: %s", i, ps.Total(), what), Level: "go", Bytes: marshal(ppb), Subject: true})
+	}
+	rn.outbound, rn.settle = false, 0
+	ok := rn.Session("same", sess)
+	rs := e.V.CS.GetRoundState()
+	rn.run.Distinct("byz_block_outcome", fmt.Sprintf("proposal=%v block=%v step=%v", rs.Proposal != nil, rs.ProposalBlock != nil, rs.Step))
+	if rs.ProposalBlock != nil {
+		rn.run.Count("byz_blocks_decoded_by_victim", 1)
+	}
+	return ok || true
+}
+
+// ---------------------------------------------------------------- block-sync processor
+
+// syncProcessor drives the block-sync processor (the code behind Receive for solicited
+// block responses: VerifyCommit, SaveBlock, ApplyBlock) with the genuine chain and
+// with structurally mutated blocks that still pass decoding.
+func syncProcessor(r *core.Run) {
+	r.Cases("blocksync-processor", r.N(8, 200), childOpts, func(c *core.Case) {
+		rg := c.R
+		e, err := NewEnv("syncing", 7)
+		if err != nil {
+			r.Inconclusive("environment: " + err.Error())
+			return
+		}
+		defer e.Close()
+		l := snapshot(e)
+		v := e.V
+		st, err := v.Store.LoadStateFromDBOrGenesisDoc(v.Gen)
+		if err != nil {
+			r.Inconclusive(err.Error())
+			return
+		}
+		proc := blockchain.VerifNewProcessor(v.BO, v.Exec, st)
+		decode := func(pb *kproto.Block) *types.Block {
+			b, err := blockchain.EncodeMsg(&bcproto.BlockResponse{Block: pb})
+			if err != nil {
+				return nil
+			}
+			m, err := blockchain.DecodeMsg(b)
+			if err != nil || blockchain.ValidateMsg(m) != nil {
+				return nil
+			}
+			blk, err := types.BlockFromProto(m.(*bcproto.BlockResponse).Block, trie.NewStackTrie(nil))
+			if err != nil {
+				return nil
+			}
+			return blk
+		}
+		feed := 0
+		put := func(blk *types.Block) {
+			feed++
+			proc.BlockReceived(p2p.ID(fmt.Sprintf("peer-%d", feed)), blk)
+		}
+		attempts := 0
+		for proc.Height()+2 <= l.StoreH && attempts < r.N(300, 1500) {
+			attempts++
+			h := proc.Height() + 1
+			// mutate one of the two blocks that are not queued yet (a verification failure purges both; a
+			// processed pair leaves the second one queued as the next first)
+			var cands []uint64
+			for _, x := range []uint64{h, h + 1} {
+				if !proc.Queued(x) {
+					cands = append(cands, x)
+				}
+			}
+			mutateH := uint64(0)
+			if len(cands) > 0 && attempts%6 != 0 { // every sixth attempt: the genuine blocks
+				mutateH = cands[rg.Intn(len(cands))]
+			}
+			label := "genuine pair"
+			ok := true
+			var blks []*types.Block
+			for _, x := range cands {
+				pb := l.blockPB(x)
+				if pb == nil {
+					return
+				}
+				if x == mutateH {
+					label = fmt.Sprintf("block %d: %s", x, ApplyMutation(pb, rg.Intn(CountMutations(pb)), rg))
+				}
+				blk := decode(pb)
+				// the scheduler hands the processor only blocks that answer a pending request: the height asked for
+				if blk == nil {
+					c.Run.Count("processor_mutants_refused_by_decoder", 1)
+					ok = false
+					break
+				}
+				if blk.Height() != x {
+					c.Run.Count("processor_mutants_refused_by_scheduler_rule", 1)
+					ok = false
+					break
+				}
+				blks = append(blks, blk)
+			}
+			c.Run.Eval(1)
+			c.Run.Count("processor_block_pairs", 1)
+			if !ok {
+				continue
+			}
+			wit := map[string]interface{}{"height": h, "mutation": label}
+			c.Guard("block-sync processor", func() interface{} { return wit }, func() {
+				for _, blk := range blks {
+					put(blk)
+				}
+				ev, _, err := proc.ProcessBlock()
+				c.Run.Count("processor_outcome:"+ev, 1)
+				if err != nil {
+					c.Run.Count("processor_errors", 1)
+				}
+				if mutateH != 0 {
+					c.Run.Nontrivial(fmt.Sprint("proc", h, label, ev))
+					c.Run.Count("processor_mutants_reached_verification", 1)
+				} else if ev != "processed" {
+					c.Run.Count("processor_genuine_pair_not_applied", 1)
+				}
+			})
+		}
+		c.Run.Max("processor_height_reached", int64(proc.Height()))
+	})
+}
+
+// makeBlock builds the block the attacker's validator would propose now, optionally with one
+// invalid aspect (the same variants as the simulator's adversary library).
+func makeBlock(e *Env, variant int) *types.Block {
+	ref := e.V
+	st := ref.CS.VerifState()
+	rs := ref.CS.GetRoundState()
+	h := st.LastBlockHeight + 1
+	var commit *types.Commit
+	if h == st.InitialHeight {
+		commit = types.NewCommit(0, 0, types.BlockID{}, nil)
+	} else if rs.LastCommit != nil && rs.LastCommit.HasTwoThirdsMajority() {
+		commit = rs.LastCommit.MakeCommit()
+	} else {
+		return nil
+	}
+	base, _ := ref.BO.BlockOperations.CreateProposalBlock(h, st, e.Net.Addrs[e.AdvIdx], commit)
+	if base == nil {
+		return nil
+	}
+	hd := base.Header()
+	txs := []*types.Transaction(base.Transactions())
+	switch variant {
+	case 1:
+		hd.AppHash = cmn.BytesToHash([]byte("bogus app hash"))
+	case 2:
+		hd.ValidatorsHash = cmn.BytesToHash([]byte("bogus validators"))
+	case 3:
+		hd.Time = hd.Time.Add(time.Second)
+	case 4:
+		hd.LastBlockID = types.BlockID{Hash: cmn.BytesToHash([]byte("other parent")), PartsHeader: types.PartSetHeader{Total: 1, Hash: cmn.BytesToHash([]byte("x"))}}
+	case 5:
+		hd.Height = h + 1
+	case 6:
+		hd.Height = 0
+	case 7:
+		if len(commit.Signatures) > 0 {
+			cc := commit.Copy()
+			cc.Round += 3
+			commit = cc
+			hd.LastCommitHash = cmn.Hash{}
+		}
+	case 8:
+		hd.ProposerAddress = cmn.HexToAddress("0xdeadbeef")
+	case 9:
+		hd.NumTxs = 1 << 40
+	case 10:
+		hd.GasLimit = 0
+	}
+	return types.NewBlock(hd, txs, commit, base.Evidence().Evidence, trie.NewStackTrie(nil))
 }
